@@ -42,11 +42,13 @@ var (
 
 func init() {
 	verifhook.Set(func(name string) {
-		if name == "vdelete.cascade.end" {
-			hookCascadeEnd.Add(1)
-		}
+		// the extra callback (crash imaging, forced schedules) runs BEFORE the end of a cascade is published, so
+		// the client goroutine that waits for the cascade cannot start its next operation while an image is taken
 		if h := extraHook.Load(); h != nil {
 			(*h)(name)
+		}
+		if name == "vdelete.cascade.end" {
+			hookCascadeEnd.Add(1)
 		}
 	})
 }
